@@ -478,6 +478,35 @@ def uncache_attribute_locals(tree):
                         if not (isinstance(st, ast.Assign) and len(st.targets) == 1 and isinstance(st.targets[0], ast.Name)):
                             continue
                         if not _pure_self_chain(st.value, selfname):
+                            # an element of a sequence that the function never changes (`level = levelvec[d]` with levelvec, d never
+                            # re-bound and levelvec never stored into): the element means the same at every use
+                            v_ = st.value
+                            if isinstance(v_, ast.Subscript) and isinstance(v_.value, ast.Name) and isinstance(v_.slice, (ast.Name, ast.Constant)) \
+                                    and v_.value.id != st.targets[0].id:
+                                involved = {v_.value.id} | ({v_.slice.id} if isinstance(v_.slice, ast.Name) else set())
+                                rebound = any(isinstance(n, ast.Name) and n.id in involved and isinstance(n.ctx, (ast.Store, ast.Del)) for n in ast.walk(fn))
+                                elem_stored = any(isinstance(n, ast.Subscript) and isinstance(n.ctx, (ast.Store, ast.Del)) and isinstance(n.value, ast.Name)
+                                                  and n.value.id == v_.value.id for n in ast.walk(fn))
+                                mutated = any(isinstance(n, ast.Call) and isinstance(n.func, ast.Attribute) and isinstance(n.func.value, ast.Name)
+                                              and n.func.value.id == v_.value.id for n in ast.walk(fn))
+                                x_ = st.targets[0].id
+                                if not rebound and not elem_stored and not mutated and x_ not in params and x_ not in nested_names and len(stores.get(x_, [])) == 1:
+                                    uses_ = loads.get(x_, [])
+                                    after_ = {id(n) for later in block[k + 1:] for n in ast.walk(later)}
+                                    if uses_ and all(id(u) in after_ for u in uses_):
+                                        import copy as _copy2
+
+                                        class _Sub2(ast.NodeTransformer):
+                                            def visit_Name(self, n_):
+                                                if n_.id == x_ and isinstance(n_.ctx, ast.Load):
+                                                    return ast.copy_location(_copy2.deepcopy(v_), n_)
+                                                return n_
+                                        for j in range(k + 1, len(block)):
+                                            block[j] = _Sub2().visit(block[j])
+                                        del block[k]
+                                        changed = True
+                                        break
+                                continue
                             # a chain on another name (`coefficient = component_grid.coefficient`): the same, provided that name is not
                             # re-bound in the statements that follow in this block (they contain all uses)
                             root = st.value
